@@ -23,6 +23,9 @@ DRIVER = os.path.join(VERIF, "driver", "target", "debug", "crdt-facts")
 FEATURE_SETS = {
     "default": [],
     "noqc": ["--no-default-features", "--features", "num,merkle"],
+    # the release profile: cfg(debug_assertions) is off, so code that differs between the profile the tests run in and the
+    # profile users ship is analysed in both
+    "release": ["--release"],
 }
 
 
@@ -81,7 +84,7 @@ def extract(feature_set="default", repo=None, want_cmdline=False):
     lockf = open(os.path.join(CACHE, "lock-" + feature_set), "w")
     fcntl.flock(lockf, fcntl.LOCK_EX)
     try:
-        for fp in glob.glob(os.path.join(tdir, "debug", ".fingerprint", "crdts-*")):
+        for fp in glob.glob(os.path.join(tdir, "*", ".fingerprint", "crdts-*")):
             shutil.rmtree(fp, ignore_errors=True)
         r = subprocess.run(cmd, env=env, capture_output=True, text=True)
     finally:
